@@ -47,6 +47,10 @@ def generate(rng, tier, boost):
     for k in range(1500 if big else 150):
         t = W.rand_tx(rng, nin=rng.choice([1, 1, 2, 3]), nout=rng.choice([0, 1, 2]))
         cases.append((201, [t, alt_witness(rng, t)]))
+    # transactions without inputs (legal objects; their identifiers are defined like any other's)
+    for k in range(60 if big else 12):
+        t = W.rand_tx(rng, nin=0, nout=rng.choice([0, 1, 2, 3]), witness='none')
+        cases.append((201, [t, []]))
     for k in range(200 if big else 40):
         cases.append((202, [W.rand_block(rng)]))
     return cases
